@@ -155,7 +155,7 @@ Definition cstep0 (c : vctx) (s : wsec) : vctx :=
   | S_Mems l => {| c_last := c_last c; c_nt := c_nt c; c_nimp := c_nimp c; c_nloc := c_nloc c; c_tabs := c_tabs c;
                      c_mems := c_mems c ++ map wm_64 l; c_globs := c_globs c; c_dc := c_dc c; c_ndata := c_ndata c; c_nbodies := c_nbodies c |}
   | S_Globals l => {| c_last := c_last c; c_nt := c_nt c; c_nimp := c_nimp c; c_nloc := c_nloc c; c_tabs := c_tabs c;
-                     c_mems := c_mems c; c_globs := c_globs c ++ map (fun gc => wg_ty (fst gc)) l; c_dc := c_dc c;
+                     c_mems := c_mems c; c_globs := c_globs c ++ map (fun gc_sweep => wg_ty (fst gc_sweep)) l; c_dc := c_dc c;
                      c_ndata := c_ndata c; c_nbodies := c_nbodies c |}
   | S_DataCount n => {| c_last := c_last c; c_nt := c_nt c; c_nimp := c_nimp c; c_nloc := c_nloc c; c_tabs := c_tabs c;
                      c_mems := c_mems c; c_globs := c_globs c; c_dc := Some (N.to_nat n); c_ndata := c_ndata c + N.to_nat n;
@@ -320,13 +320,13 @@ Lemma parse_globals_abs : forall l m ids nt ni nl tb me gl nd nf,
   Abs nt ni nl tb me gl nd m ids -> length (ii_funcs ids) = nf -> length (ii_globals ids) = length gl ->
   globals_ok nf gl l = true ->
   exists m' ids', parse_globals m ids l = POk (m', ids') /\
-                  Abs nt ni nl tb me (gl ++ map (fun gc => wg_ty (fst gc)) l) nd m' ids'.
+                  Abs nt ni nl tb me (gl ++ map (fun gc_sweep => wg_ty (fst gc_sweep)) l) nd m' ids'.
 Proof.
   induction l as [|[g k] r IH]; intros m ids nt ni nl tb me gl nd nf A Hf Hg Hok; cbn [parse_globals globals_ok map] in *.
   - eexists _, _. split; [reflexivity|]. rewrite app_nil_r. exact A.
   - apply andb_true_iff in Hok. destruct Hok as [H1 H2].
     destruct (eval_const_total ids nf gl k Hf Hg H1) as [mc Emc]. rewrite Emc. cbn [pbind]. wcbn.
-    cbn [fst]. replace (gl ++ wg_ty g :: map (fun gc => wg_ty (fst gc)) r) with ((gl ++ [wg_ty g]) ++ map (fun gc => wg_ty (fst gc)) r)
+    cbn [fst]. replace (gl ++ wg_ty g :: map (fun gc_sweep => wg_ty (fst gc_sweep)) r) with ((gl ++ [wg_ty g]) ++ map (fun gc_sweep => wg_ty (fst gc_sweep)) r)
       by (rewrite <- app_assoc; reflexivity).
     eapply IH; [| |  |exact H2].
     + destruct A as (A1 & A2 & A3 & A4 & A5 & A6). unfold Abs. wcbn. rewrite map_app, A5. repeat split; assumption.
